@@ -58,8 +58,14 @@ class RobotsTxtChecker(object):
             raise NotInPoolError()
 
     @asyncio.coroutine
-    def fetch_robots_txt(self, request: Request, file=None):
+    def fetch_robots_txt(self, request: Request, file=None,
+                         redirect_filter=None):
         '''Fetch the robots.txt file for the request.
+
+        Args:
+            redirect_filter: A callable that is given the request for the
+                target of a redirect and returns whether it may be fetched.
+                A refused target means no usable robots.txt.
 
         Coroutine.
         '''
@@ -77,7 +83,19 @@ class RobotsTxtChecker(object):
 
             # Leaving the block gives the connection back on an error too.
             with session:
+                is_redirect = False
+
                 while not session.done():
+                    if is_redirect and redirect_filter and \
+                            not redirect_filter(session.next_request()):
+                        # Only the file itself is exempt from the URL
+                        # filters, not what it redirects to.
+                        self._accept_as_blank(url_info)
+
+                        return
+
+                    is_redirect = True
+
                     if session.next_request().url_info.scheme not in (
                             'http', 'https'):
                         # Redirected to something this client cannot fetch.
@@ -106,7 +124,8 @@ class RobotsTxtChecker(object):
                 self._accept_as_blank(url_info)
 
     @asyncio.coroutine
-    def can_fetch(self, request: Request, file=None) -> bool:
+    def can_fetch(self, request: Request, file=None,
+                  redirect_filter=None) -> bool:
         '''Return whether the request can fetched.
 
         Args:
@@ -120,7 +139,8 @@ class RobotsTxtChecker(object):
         except NotInPoolError:
             pass
 
-        yield from self.fetch_robots_txt(request, file=file)
+        yield from self.fetch_robots_txt(
+            request, file=file, redirect_filter=redirect_filter)
 
         return self.can_fetch_pool(request)
 
